@@ -32,6 +32,7 @@ def run(ctx, crate):
     from .c11 import rule_arm_buffer_fresh
     rule_arm_buffer_fresh(ctx, crate)
     rule_brace_not_dropped(ctx, crate)
+    rule_literal_in_order(ctx, crate)
     rule_chars_not_bytes(ctx, crate)
     # a declared `{key:width}` (any width up to u16::MAX) is rendered with exactly the declared width/alignment/truncate
     from .c12 import rule_placeholder_fields_forwarded
@@ -93,6 +94,124 @@ def rule_brace_not_dropped(ctx, crate, rule="R-BRACE-NOT-DROPPED"):
                       "leaving the pending-'{' state towards Literal re-emits the brace as literal text",
                       "with a '{' pending (state MaybeOpen) the parser returns to Literal without emitting the brace: the '{' vanishes from the rendering", cfg)
     ctx.floor(rule, n, 1, cfg, "MaybeOpen -> (Literal, None) transitions")
+
+
+def rule_literal_in_order(ctx, crate, rule="R-LITERAL-IN-ORDER"):
+    """"the rendering is the in-order concatenation of the literal text": when the parser reads '{' in state Literal, the text
+    read so far is still in the scratch buffer (the brace itself is not). If that state (MaybeOpen) then emits the brace as
+    literal text (the whitespace backtrack), the buffered text must come out *before* the brace: either (a) the buffer is
+    always empty in MaybeOpen — every transition whose target is MaybeOpen takes/clears the buffer or passes the true edge of
+    `buf.is_empty()` — or (b) every literal emitted under MaybeOpen that contains the brace is built with the buffer's
+    content in front of the "{" constant (or the buffer is flushed to `parts` first)."""
+    cfg = crate.config
+    b = K.find_one(ctx, crate, rule, r"style::Template::from_str_with_tab_width")
+    if not b:
+        return
+    states = [i for i, l in enumerate(b.locals) if l["ty"] == "style::State" and l.get("name") == "state"]
+    news = [i for i, l in enumerate(b.locals) if l["ty"].replace(" ", "") == "(style::State,std::option::Option<char>)"]
+    # the scratch buffer: the String that receives the pushed character `new.1`
+    bufs = set()
+    for c in b.calls(r"std::string::String::push"):
+        if any(l in news for l in b.slice_args(c, [1], through_calls=False).locals):
+            for tl, tp in b.ref_origins().get(operand_local(c.args[0]), ()):
+                if not tp and b.locals[tl]["ty"] == "std::string::String":
+                    bufs.add(tl)
+    if len(states) != 1 or not news or len(bufs) != 1:
+        ctx.lost(rule, cfg, "parser locals `state` / `new` / scratch buffer not found (buffers: %s)" % sorted(bufs))
+        return
+    st, buf = states[0], next(iter(bufs))
+
+    def on_buf(c, k=0):
+        return any(tl == buf and not tp for tl, tp in b.ref_origins().get(operand_local(c.args[k]), ())) if len(c.args) > k else False
+
+    def derives(pl, root_locals, field):
+        """place is component `field` of a tuple whose operand at that position is a copy of one of root_locals (possibly a field of it)"""
+        if not pl["p"] or not isinstance(pl["p"][0], dict) or pl["p"][0].get("f") != field:
+            return False
+        for d in b.defs().get(pl["l"], ()):
+            if d["kind"] == "assign" and d["rv"]["k"] == "agg" and d["rv"].get("ak") == "tuple" and len(d["rv"]["ops"]) > field:
+                src = operand_local(d["rv"]["ops"][field])
+                for _ in range(4):
+                    if src in root_locals:
+                        return True
+                    ds = [x for x in b.defs().get(src, ()) if x["kind"] == "assign" and x["rv"]["k"] == "use"] if src is not None else []
+                    src = operand_local(ds[0]["rv"]["op"]) if len(ds) == 1 else None
+        return False
+    # (a) is the buffer always empty when the state becomes MaybeOpen?
+    pred_to = lambda pl: derives(pl, set(news), 1) or (pl["l"] in news and pl["p"] and isinstance(pl["p"][0], dict) and pl["p"][0].get("f") == 0 and len(pl["p"]) == 1)
+    second = [x for x in K.discr_switches(b) if K.head_of_type(x[2].get("ty", "")) == "style::State" and pred_to(x[2])]
+    stores = [i for i, j, s_ in b.assigns() if s_["lhs"]["l"] == st and not s_["lhs"]["p"] and b.in_loop(i)]
+    flushed = False
+    if second and stores:
+        R2, avoid2 = K.variant_reach(b, crate, "style::State", "MaybeOpen", pred_to, want_avoid=True)
+        flush_bbs = {c.bb for c in b.calls(r"std::mem::take", r"std::string::String::clear", r"std::mem::replace") if on_buf(c)}
+        empty_edges = set()
+        for c in b.calls(r"std::string::String::is_empty"):
+            if on_buf(c) and not c.dest["p"]:
+                for sb, t in b.switches():
+                    src = sb
+                    l = operand_local(t["op"])
+                    neg = False
+                    for _ in range(3):
+                        ds = [d for d in b.defs().get(l, ()) if d["kind"] in ("assign", "call")] if l is not None else []
+                        if len(ds) == 1 and ds[0]["kind"] == "assign" and ds[0]["rv"]["k"] == "un" and ds[0]["rv"].get("op") == "Not":
+                            neg = not neg
+                            l = operand_local(ds[0]["rv"].get("a"))
+                        elif len(ds) == 1 and ds[0]["kind"] == "assign" and ds[0]["rv"]["k"] == "use":
+                            l = operand_local(ds[0]["rv"]["op"])
+                    if l != c.dest["l"]:
+                        continue
+                    zero = [tb for v, tb in t["targets"] if v == 0]
+                    if zero and zero[0] != t["otherwise"]:
+                        empty_edges.add((sb, zero[0]) if neg else (sb, t["otherwise"]))
+        start = min(x[0] for x in second)
+        r = b.reach([start], avoid=flush_bbs, avoid_edges=set(avoid2) | empty_edges)
+        flushed = start in R2 and not (r & set(stores))
+    ctx.extra.setdefault("literal_in_order", {})[cfg] = {"buffer_empty_in_MaybeOpen": flushed}
+    # (b) the brace literals emitted under MaybeOpen
+    first_pred = lambda pl: derives(pl, {st}, 0) or (pl["l"] == st and not pl["p"])
+    Rm = K.variant_reach(b, crate, "style::State", "MaybeOpen", first_pred)
+    n = 0
+    for c in b.calls(r"state::TabExpandedString::new"):
+        if c.bb not in Rm or not b.in_loop(c.bb):
+            continue
+        sl = b.slice_args(c, [0])
+        if not any(v in ("{",) for v in sl.consts()):
+            continue
+        # order of the contributions to the emitted string: creation / push_str / push / insert, by CFG position
+        contrib = []
+        for k in sl.calls:
+            if k.bb not in Rm:
+                continue
+            cs = [const_val(a) for a in k.args]
+            has_buf = any(on_buf(k, i_) for i_ in range(len(k.args))) or (buf in b.slice_args(k, through_calls=False).locals and not on_buf(k, 0))
+            if k.matches(r"std::convert::From::from", r"std::string::ToString::to_string", r"std::borrow::ToOwned::to_owned", r"std::string::String::push_str", r"std::string::String::push"):
+                if "{" in cs:
+                    contrib.append((k, "brace"))
+                elif has_buf and (k.matches(r"std::string::String::push_str") and not on_buf(k, 0) or not k.matches(r"std::string::String::push.*")):
+                    contrib.append((k, "buf"))
+            elif k.matches(r"std::string::String::insert(_str)?") and "{" in cs:
+                contrib.append((k, "brace-front" if 0 in cs else "brace"))
+            elif k.matches(r"std::mem::take", r"std::clone::Clone::clone") and has_buf:
+                contrib.append((k, "buf"))
+        braces_ = [k for k, w in contrib if w.startswith("brace")]
+        if not braces_:
+            continue            # the "{" seen in the slice is a character pushed into the buffer earlier ("{{"), not this literal's own
+        n += 1
+        if flushed:
+            ctx.ok(rule, "text-before-brace#%d" % (n - 1), b.name, c.loc(), "the buffer is always flushed before the parser enters MaybeOpen: nothing can end up behind the brace", cfg)
+            continue
+        bufs_ = [k for k, w in contrib if w == "buf"]
+        front = [k for k, w in contrib if w == "brace-front"]
+        ok = bool(braces_) and bool(bufs_) and not front and all(x.bb in b.reach_after(y.bb) and y.bb not in b.reach_after(x.bb) for x in braces_ for y in bufs_)
+        # ... or the buffer was flushed to `parts` inside this arm, before the emission
+        arm_flush = any(k.bb in Rm and b.dominates(k.bb, c.bb) and k.bb in b.reach([min(x[0] for x in K.discr_switches(b) if first_pred(x[2]))] if [x for x in K.discr_switches(b) if first_pred(x[2])] else [0])
+                        for k in b.calls(r"std::mem::take") if on_buf(k) and k.bb not in {x.bb for x in bufs_})
+        ctx.check(ok or arm_flush, rule, "text-before-brace#%d" % (n - 1), b.name, c.loc(),
+                  "text buffered before the '{' is emitted in front of it",
+                  "with a '{' pending (state MaybeOpen) the text read before the brace is still in the buffer, and the literal emitted here puts \"{\" in front of it "
+                  "(or leaves it for later): \"a{ b\" renders as \"{a b\"", cfg)
+    ctx.floor(rule, n, 1, cfg, "brace literals emitted under state MaybeOpen")
 
 
 def rule_chars_not_bytes(ctx, crate, rule="R-PARSE-CHARS"):
